@@ -79,6 +79,17 @@ func c07File(kind string, n int, seed int64) []string {
 		}
 	default: // synthetic: numbered names so the sorted position of every key is known
 		lines = append(lines, ".example.com,192.0.2.1,a,3600", "%ab,10.0.0.0/8,Ma", "%cd,10.1.0.0/16,Ma", "%ab,2001:db8::/32,Ma", "Mexample.com,Ma", "8*.example.com,Ma")
+		if n >= 1000 {
+			// two large maps: more than 1024 range points each in the derived subnet table (disjoint, non-adjacent
+			// subnets with alternating locations, so that nothing is merged away)
+			for i := 0; i < 700; i++ {
+				lines = append(lines, fmt.Sprintf("%%%s,172.%d.%d.0/24,Mb", []string{"ab", "cd", "ef"}[i%3], 16+i/128, (i%128)*2))
+			}
+			for i := 0; i < 600; i++ {
+				lines = append(lines, fmt.Sprintf("%%%s,2001:db8:%x::/48,Mc", []string{"cd", "ab"}[i%2], 0x1000+2*i))
+			}
+			lines = append(lines, "Mbig.example.com,Mb", "8big.example.com,Mc")
+		}
 		hot := map[int]int{}
 		// hot keys placed to straddle the bulk loader's bucket cuts (30000, 60000) and every batch size
 		for _, pos := range []int{29950, 29990, 30010, 59980, 60005, 500, 999, 7} {
@@ -428,7 +439,7 @@ func c07CheckInput(lines []string, s c07Setting, kind string, pos int) (msg stri
 }
 
 func runC07(r *report.Run) {
-	r.SetRule("data files of ~50, ~5 000 and ~70 000 records (generated worlds and synthetic numbered names with hot keys of 2-600 values placed across the bulk loader's bucket cuts at 30 000/60 000 and across every batch boundary, plus comments/blank/indented lines) compiled under 11 settings (CDB workers 1/4/16; RocksDB builder with 1/4/16 CPUs; batches of size 7/1000/default with parallelism 1/4/0; v1/v2 keys); the full raw dump (key -> multiset of values) must equal the records the sequential line codec emits plus accumulator and feature records. Failing-line variant: one rejected line at a random position must make every setting fail (CreateCDB must remove its output). Input-delivery variants: a reader returning short reads (database must be complete), a reader failing after N bytes and a comment line beyond the scanner's 64 KiB limit (the compilation may fail as a whole, but success with records missing is a violation). A compile that does not return is examined with a structural deadlock witness. non-trivial = (file, setting) with >=1 key holding >=2 values; distinct by (file, setting)")
+	r.SetRule("data files of ~50, ~5 000 and ~70 000 records (generated worlds and synthetic numbered names with hot keys of 2-600 values placed across the bulk loader's bucket cuts at 30 000/60 000 and across every batch boundary, plus comments/blank/indented lines; the medium and large files declare two maps of 700 and 600 disjoint subnets, i.e. more than 1024 range points each) compiled under 11 settings (CDB workers 1/4/16; RocksDB builder with 1/4/16 CPUs; batches of size 7/1000/default with parallelism 1/4/0; v1/v2 keys); the full raw dump (key -> multiset of values) must equal the records the sequential line codec emits plus accumulator and feature records. Failing-line variant: one rejected line at a random position must make every setting fail (CreateCDB must remove its output). Input-delivery variants: a reader returning short reads (database must be complete), a reader failing after N bytes and a comment line beyond the scanner's 64 KiB limit (the compilation may fail as a whole, but success with records missing is a violation). A compile that does not return is examined with a structural deadlock witness. non-trivial = (file, setting) with >=1 key holding >=2 values; distinct by (file, setting)")
 	r.Assume("reference = the repository's own line codec run sequentially, as the statement defines it; order of values under one key is not compared (multiset)")
 	type fileSpec struct {
 		kind string
